@@ -3,6 +3,7 @@ import Kio.Model.Current
 import Kio.Spec.Wire
 import Kio.Generated.All
 import Kio.WireRec
+import Kio.Spec.Foreign
 /-!
 Line-protocol driver (DESIGN §4.2): one request per line on stdin, one reply per line on stdout.
 Run with `lake env lean --run Driver.lean`.
@@ -128,6 +129,29 @@ def step (st : St) (line : String) : St × String :=
     match idx.toNat?.bind (st.classes[·]?), parseValue toks with
     | some s, some (v, []) => (st, match Spec.enc s v with
         | some b => s!"ok {hexTok b}" | none => "none")
+    | _, _ => (st, "bad-op")
+  | "foreign" :: idx :: sd :: nunk :: toks =>
+    -- foreign <cls> <sendDefaults> <n> (tag hex){n} <value…>
+    match idx.toNat?.bind (st.classes[·]?), nunk.toNat? with
+    | some s, some n =>
+      let rec takeUnk : Nat → List String → Option (List (Nat × Bytes) × List String)
+        | 0, ts => some ([], ts)
+        | k+1, t :: h :: ts => do
+          let tag ← t.toNat?
+          let b ← bytesOfHex h
+          let (us, ts) ← takeUnk k ts
+          pure ((tag, b) :: us, ts)
+        | _, _ => none
+      match takeUnk n toks with
+      | some (unk, rest) =>
+        match parseValue rest with
+        | some (v, []) =>
+          let pat : Spec.ForeignPat := { sendDefaults := sd = "1", unknown := unk }
+          if !pat.ok || !Spec.Schema.avoids (unk.map (·.1)) s then (st, "bad-pattern")
+          else (st, match Spec.encForeign pat s v with
+            | some b => s!"ok {hexTok b}" | none => "none")
+        | _ => (st, "bad-op")
+      | none => (st, "bad-op")
     | _, _ => (st, "bad-op")
   | ["reccfg", a, b] => ({ st with rcfg := { exactReads := a = "1", roundTs := b = "1" } }, "ok")
   | ["rbatch", hex] =>
